@@ -176,6 +176,9 @@ def oracle(chk, d, kindtok, cls, dep):
             elif "execute" == k and " 1 " in kindtok[:14] and kindtok.split()[2] == "1":
                 # cursor-opening execute: count, coldefs, terminator with CURSOR_EXISTS
                 n = pk[0][0]
+                optmeta = bool(int(d.peer.caps) & int(C.CLIENT_OPTIONAL_RESULTSET_METADATA))
+                if pk[0] != bytes([n]) + (b"\x01" if optmeta else b""):
+                    raise Bad("column count packet %r (metadata_follows byte %s)" % (pk[0][:8], "negotiated" if optmeta else "not negotiated"))
                 for p in pk[1:1 + n]:
                     parse_coldef(p)
                 if len(pk) != n + 2:
@@ -337,6 +340,9 @@ async def wide_responses(chk, rng, n):
     for i in range(n):
         dep = rng.random() < 0.5
         caps = int(BASE) | (int(Caps.CLIENT_DEPRECATE_EOF) if dep else 0)
+        if rng.random() < 0.5:
+            # a flag the server may or may not support: what counts is what was negotiated (Peer.login masks with the greeting)
+            caps |= int(Caps.CLIENT_OPTIONAL_RESULTSET_METADATA)
         widths = [rng.choice([1, 10, 200, 5000, 32700, 32760, 32764, 32768, 33000, 40000, 70000]) for _ in range(rng.randrange(1, 7))]
         rows = [("%d:" % k + "x" * w,) for k, w in enumerate(widths)]
         sess = RecSession(behaviour=lambda se, e, sql, at: (list(rows), [ResultColumn("a", ColumnType.VARCHAR)]))
